@@ -199,8 +199,44 @@ func countPosForalls(f string) int {
 // registerQuant records an asserted formula with positive foralls and instantiates it.
 // One quantified variable: every index term. Several (nested) variables: tuples of skolem
 // constants of the goals (and their images under the permutations of sort.Sort) only.
+// splitConj splits an asserted formula along its top-level conjunctions (also under implication
+// chains): (=> p (and a b)) gives (=> p a), (=> p b). Each part is instantiated on its own.
+func splitConj(f string) []string {
+	ch, ok := sexprChildren(f)
+	if !ok || len(ch) == 0 {
+		return []string{f}
+	}
+	switch ch[0] {
+	case "and":
+		var out []string
+		for _, c := range ch[1:] {
+			out = append(out, splitConj(c)...)
+		}
+		return out
+	case "=>":
+		if len(ch) == 3 {
+			parts := splitConj(ch[2])
+			if len(parts) == 1 {
+				return []string{f}
+			}
+			var out []string
+			for _, p := range parts {
+				out = append(out, "(=> "+ch[1]+" "+p+")")
+			}
+			return out
+		}
+	}
+	return []string{f}
+}
+
 func (s *Script) registerQuant(f string) {
 	if !strings.Contains(f, "(forall ((q.") {
+		return
+	}
+	if parts := splitConj(f); len(parts) > 1 {
+		for _, p := range parts {
+			s.registerQuant(p)
+		}
 		return
 	}
 	n := countPosForalls(f)
@@ -299,6 +335,13 @@ func (s *Script) skolemize(goal string) (string, []string) {
 		return goal, nil
 	}
 	terms := append([]idxTerm(nil), sks...)
+	var near []idxTerm // neighbours of the skolem indices (shifted copies: append/copy/delete of one element)
+	for _, it := range sks {
+		if it.sort == s.idx() && s.mode == ModeBV && len(sks) <= 2 {
+			near = append(near, idxTerm{fmt.Sprintf("(bvadd %s #x0000000000000001)", it.term), it.sort},
+				idxTerm{fmt.Sprintf("(bvsub %s #x0000000000000001)", it.term), it.sort})
+		}
+	}
 	for _, it := range sks {
 		if it.sort != s.idx() {
 			continue
@@ -320,6 +363,9 @@ func (s *Script) skolemize(goal string) (string, []string) {
 		switch {
 		case q.nvar == 1:
 			for _, t := range terms {
+				add(q, []idxTerm{t})
+			}
+			for _, t := range near {
 				add(q, []idxTerm{t})
 			}
 		case q.nvar <= 3:
